@@ -15,33 +15,36 @@ Import ListNotations.
 Open Scope Z_scope.
 
 (** Shape of the verdict list: one entry per distinct selector text, every checked selector has an entry,
-    and an entry is computed from the first selector with that text. *)
+    and an entry is computed from the first selector with that text ([verdict]: the decision tree of that
+    selector, given what is known about the accumulated problem list at its turn). *)
 Theorem C16_one_verdict_per_selector : forall re d others now st rules sels,
   NoDup (map fst (check re d others now st rules sels)) /\
   (forall s, In s sels -> In (vs_str s) (map fst (check re d others now st rules sels))) /\
   (forall k o, In (k, o) (check re d others now st rules sels) ->
-     exists pre s post, sels = (pre ++ s :: post)%list /\ vs_str s = k /\
-       (forall s', In s' pre -> vs_str s' <> k) /\ o = check_selector re d others now st rules s).
+     exists pre s post p, sels = (pre ++ s :: post)%list /\ vs_str s = k /\
+       (forall s', In s' pre -> vs_str s' <> k) /\ o = verdict re d others now st rules p s).
 Proof.
   intros. split; [apply check_all_nodup|]. split.
   - intros s Hs. apply check_all_covers; [exact Hs|intros []].
-  - intros k o H. apply (check_all_entry re d others now st rules sels [] k o H).
+  - intros k o H. apply (check_all_entry re d others now st rules sels [] (Some false) k o H).
 Qed.
 Print Assumptions C16_one_verdict_per_selector.
 
 (** (a) A selector for which an instant query returns series NOW gets no problem at all (the tree stops at
-    step 1), whatever the history, the other servers, the rules and the settings. *)
+    step 1), whatever the history, the other servers, the rules, the settings and the problems reported for
+    other selectors.  "Now" is the server's clock when the probe arrives: the probe carries no time parameter
+    ([instant_request], compared with the requests pint really sends on every run). *)
 Theorem C16_present_not_missing : forall re d others now st rules sels k o,
   In (k, o) (check re d others now st rules sels) ->
-  exists s, In s sels /\ vs_str s = k /\ o = check_selector re d others now st rules s /\
+  exists s p, In s sels /\ vs_str s = k /\ o = verdict re d others now st rules p s /\
     (is_alerts s = false ->
-     instant_match re d now (vs_matchers s) <> [] ->
+     instant_match re d (eval_time now instant_request) (vs_matchers s) <> [] ->
      o = Decided []).
 Proof.
   intros re d others now st rules sels k o H.
-  destruct (check_all_entry re d others now st rules sels [] k o H) as [_ [pre [s [post [Hs [Hk [_ Ho]]]]]]].
-  exists s. split; [subst sels; apply in_or_app; right; left; reflexivity|]. split; [exact Hk|]. split; [exact Ho|].
-  intros Ha Hp. rewrite Ho. apply present_decided; assumption.
+  destruct (check_all_entry re d others now st rules sels [] _ k o H) as [_ [pre [s [post [p [Hs [Hk [_ Ho]]]]]]]].
+  exists s, p. split; [subst sels; apply in_or_app; right; left; reflexivity|]. split; [exact Hk|]. split; [exact Ho|].
+  intros Ha Hp. rewrite Ho. apply verdict_const; [|reflexivity]. intro b. apply present_decided; assumption.
 Qed.
 Print Assumptions C16_present_not_missing.
 
@@ -49,10 +52,10 @@ Print Assumptions C16_present_not_missing.
     any instant the lookback probe evaluates, nor now, for which no recording rule of the checked set is
     named like the bare selector, which is not exempted by a disable/snooze comment nor by ignoreMetrics, and
     with no other server to consult (or no ignoreMatchingElsewhere), gets exactly one problem:
-    "query on nonexistent series" with severity Bug. *)
+    "query on nonexistent series" with severity Bug - whatever was reported for other selectors. *)
 Theorem C16_never_there_is_bug : forall re d others now st rules sels k o,
   In (k, o) (check re d others now st rules sels) ->
-  exists s, In s sels /\ vs_str s = k /\ o = check_selector re d others now st rules s /\
+  exists s p, In s sels /\ vs_str s = k /\ o = verdict re d others now st rules p s /\
     (vs_disabled s = false -> vs_snoozed s = false -> is_alerts s = false ->
      vs_bare_str s <> EmptyString -> 0 <= set_step st ->
      (forall t, In t (probe_points now st) \/ t = now ->
@@ -63,40 +66,123 @@ Theorem C16_never_there_is_bug : forall re d others now st rules sels k o,
      o = Decided [(summary_nonexistent, Bug)]).
 Proof.
   intros re d others now st rules sels k o H.
-  destruct (check_all_entry re d others now st rules sels [] k o H) as [_ [pre [s [post [Hs [Hk [_ Ho]]]]]]].
-  exists s. split; [subst sels; apply in_or_app; right; left; reflexivity|]. split; [exact Hk|]. split; [exact Ho|].
-  intros. rewrite Ho. apply never_there_bug; assumption.
+  destruct (check_all_entry re d others now st rules sels [] _ k o H) as [_ [pre [s [post [p [Hs [Hk [_ Ho]]]]]]]].
+  exists s, p. split; [subst sels; apply in_or_app; right; left; reflexivity|]. split; [exact Hk|]. split; [exact Ho|].
+  intros. rewrite Ho. apply verdict_const; [|reflexivity]. intro b. apply never_there_bug; assumption.
 Qed.
 Print Assumptions C16_never_there_is_bug.
 
+(** Only rules of the right KIND count as producers: an alerting rule named like the metric does not produce it
+    ([has_recording] looks at recording rules only), a recording rule named like an alert does not produce
+    ALERTS{alertname=...} ([has_alerting] looks at alerting rules only). *)
+Theorem C16_rule_kind_matters : forall n rules,
+  (forall r, In r rules -> ri_name r = n -> ri_recording r = false) -> has_recording rules n = false.
+Proof.
+  intros n rules H. unfold has_recording. induction rules as [|r rs IH]; [reflexivity|]. cbn [existsb].
+  rewrite IH by (intros r' Hr'; apply H; right; exact Hr'). rewrite orb_false_r.
+  destruct (String.eqb (ri_name r) n) eqn:E; [|rewrite !andb_false_r; reflexivity].
+  apply String.eqb_eq in E. rewrite (H r (or_introl eq_refl) E). reflexivity.
+Qed.
+Print Assumptions C16_rule_kind_matters.
+
 (** The ALERTS carve-out, stated rather than hidden: an ALERTS{alertname="X"} selector with no alerting rule X
-    in the checked set is a Bug "unknown alert referenced" whatever the server holds — even when the
-    server currently returns such series. *)
-Theorem C16_alerts_answered_from_rules : forall re d others now st rules s,
+    in the checked set is a Bug "unknown alert referenced" whatever the server holds - even when the
+    server currently returns such series, and even when a RECORDING rule is named X. *)
+Theorem C16_alerts_answered_from_rules : forall re d others now st rules b s,
   vs_disabled s = false -> vs_snoozed s = false -> is_alerts s = true ->
   alertname_of s <> EmptyString -> has_alerting rules (alertname_of s) = false ->
-  check_selector re d others now st rules s = Decided [(summary_unknown_alert, Bug)].
+  check_selector re d others now st rules b s = Decided [(summary_unknown_alert, Bug)].
 Proof.
-  intros re d others now st rules s Hd Hz Ha Hn Hr. unfold check_selector. rewrite Hd, Hz, Ha. cbn [orb].
+  intros re d others now st rules b s Hd Hz Ha Hn Hr. unfold check_selector. rewrite Hd, Hz, Ha. cbn [orb].
   destruct (String.eqb (alertname_of s) "") eqn:E; [apply String.eqb_eq in E; contradiction|].
   rewrite Hr. reflexivity.
 Qed.
 Print Assumptions C16_alerts_answered_from_rules.
 
-(** Non-vacuity: a concrete database where both situations occur (premises satisfiable, conclusions computed). *)
+(** * The probe instants are pinned
+
+    What pint asks for is part of the model: the instant probe has no time parameter (evaluated at the server's
+    now), the range probes are the slices of [now - lookbackRange, now] with step lookbackStep.  The verdict
+    list is a function of the database restricted to those instants: two databases that answer every selector
+    alike at [now] and at every point of the range grid get the same verdicts - for the whole decision tree,
+    steps 0-8.  (So a change of the evaluation instants - e.g. an instant probe evaluated at a truncated time -
+    is a change of this model and of the theorems below, and is caught by the request correspondence.) *)
+Theorem C16_verdict_reflects_database_at_probe_instants : forall re d d' others now st rules sels,
+  (forall t ms, In t (probe_points now st) \/ t = eval_time now instant_request ->
+                instant_match re d t ms = instant_match re d' t ms) ->
+  check re d others now st rules sels = check re d' others now st rules sels.
+Proof. intros re d d' others now st rules sels H. apply check_all_agree. exact H. Qed.
+Print Assumptions C16_verdict_reflects_database_at_probe_instants.
+
+(** the instants of the range probes: the evaluation grids of the requests [range_requests] *)
+Theorem C16_probe_instants : forall now st t,
+  In t (probe_points now st) <->
+  exists rs r, range_requests now st = Some rs /\ In r rs /\ rq_step r = set_step st /\
+               In t (grid_between (rq_start r) (rq_end r) (set_step st)).
+Proof.
+  intros now st t. unfold probe_points. split.
+  - intro H. destruct (range_requests now st) as [rs|] eqn:E; [|contradiction].
+    apply in_flat_map in H. destruct H as [r [Hr Ht]]. exists rs, r.
+    assert (rq_step r = set_step st) as Es.
+    { unfold range_requests, range_requests_for in E. destruct (query_slices _ _ _ _ _); [|discriminate].
+      inversion E; subst rs. apply in_map_iff in Hr. destruct Hr as [x [Hx _]]. subst r. reflexivity. }
+    split; [reflexivity|]. split; [exact Hr|]. split; [exact Es|]. rewrite <- Es. exact Ht.
+  - intros [rs [r [E [Hr [Es Ht]]]]]. rewrite E. apply in_flat_map. exists r. split; [exact Hr|]. rewrite Es. exact Ht.
+Qed.
+Print Assumptions C16_probe_instants.
+
+(** Every range probe returns exactly the runs of ONE evaluation of its expression on the grid
+    first slice start, + step, ... <= now, with the first slice start at or before now - lookbackRange:
+    slicing is invisible (C13's headline theorem applied to the requests pint really makes). *)
+Theorem C16_range_probe_is_unsliced_runs : forall now st pres,
+  sec <= set_step st -> set_step st <= max_int64 - 2 * hour ->
+  exists a, a <= now - set_lookback st /\
+    range_probe_pres now st pres = Some (runs_of count_fp (set_step st) pres a now).
+Proof.
+  intros now st pres Hs Hm. destruct (range_probe_pres_runs now st pres Hs Hm) as [sl [_ [Ha E]]].
+  exists (C13_grid.first_start sl (now - set_lookback st)). split; [exact Ha|exact E].
+Qed.
+Print Assumptions C16_range_probe_is_unsliced_runs.
+
+(** * Steps 3-8: one link stated on its own (step 4)
+
+    A selector without positive label matchers whose metric has exactly one presence range in the window, there
+    since (at most one step after) the start of the window and gone for more than one step: it is reported
+    ("query on nonexistent series", Bug, or Warning under ignoreMetrics) exactly when it has been gone for longer
+    than min-age (2h unless a rule/set comment says otherwise), provided nothing was reported before. *)
+Theorem C16_disappeared_metric_is_reported : forall re d others now st rules s r up,
+  vs_disabled s = false -> vs_snoozed s = false -> is_alerts s = false ->
+  instant_match re d now (vs_matchers s) = [] -> vs_bare_str s <> EmptyString ->
+  0 < set_step st -> 0 <= set_lookback st ->
+  range_probe re d now st (bare_matchers (vs_matchers s)) = Some [r] ->
+  uptime_ranges re d now st = Some up ->
+  label_names s = [] ->
+  r_start r <= now - set_lookback st + set_step st ->
+  r_end r < now - set_step st ->
+  check_selector re d others now st rules false s =
+    Decided (if r_end r <? now - vs_min_age s then [nonexistent (sev_of st s)] else []).
+Proof. intros. eapply disappeared_reported; eassumption. Qed.
+Print Assumptions C16_disappeared_metric_is_reported.
+
+(** Non-vacuity: a concrete database where the situations occur (premises satisfiable, conclusions computed):
+    m0 present now; m1 never there (Bug) although an ALERTING rule is named m1; m2 there for the whole window
+    until 3h ago (step 4: Bug). *)
 Example C16_nonvacuous :
   let re := fun _ _ : string => false in
   let now := 1700000000000000000 in
-  let st := mkSet (4 * hour) (5 * minute) [] [] in
+  let st := mkSet (4 * hour) (5 * minute) [] [] "up" in
   let present := mkTS [("__name__", "m0"); ("job", "a")]%string [(now - 10 * hour, now + hour)] in
-  let s0 := mkSel "m0" "m0" "m0" [mkM MEq "__name__" "m0"] false false in
-  let s1 := mkSel "m1{job=""a""}" "m1" "m1" [mkM MEq "__name__" "m1"; mkM MEq "job" "a"] false false in
-  check re [present] [] now st [] [s0; s1] =
+  let gone := mkTS [("__name__", "m2")]%string [(now - 10 * hour, now - 3 * hour)] in
+  let s0 := mkSel "m0" "m0" "m0" [mkM MEq "__name__" "m0"] false false (2 * hour) [] in
+  let s1 := mkSel "m1{job=""a""}" "m1" "m1" [mkM MEq "__name__" "m1"; mkM MEq "job" "a"] false false (2 * hour) [] in
+  let s2 := mkSel "m2" "m2" "m2" [mkM MEq "__name__" "m2"] false false (2 * hour) [] in
+  check re [present; gone] [] now st [mkRI false "m1" false] [s0; s1] =
     [("m0"%string, Decided []); ("m1{job=""a""}"%string, Decided [(summary_nonexistent, Bug)])]
-  /\ instant_match re [present] now (vs_matchers s0) <> []
-  /\ (forall t, instant_match re [present] t (bare_matchers (vs_matchers s1)) = []).
+  /\ check re [present; gone] [] now st [] [s2] = [("m2"%string, Decided [(summary_nonexistent, Bug)])]
+  /\ instant_match re [present; gone] now (vs_matchers s0) <> []
+  /\ (forall t, instant_match re [present; gone] t (bare_matchers (vs_matchers s1)) = []).
 Proof.
-  cbv zeta. split; [vm_compute; reflexivity|]. split; [vm_compute; discriminate|].
+  cbv zeta. split; [vm_compute; reflexivity|]. split; [vm_compute; reflexivity|]. split; [vm_compute; discriminate|].
   intro t. unfold instant_match. cbn [filter map]. reflexivity.
 Qed.
 Print Assumptions C16_nonvacuous.
